@@ -25,6 +25,8 @@ import (
 	"sync/atomic"
 	"time"
 
+	cmttypes "github.com/cometbft/cometbft/types"
+
 	"github.com/cosmos/cosmos-sdk/client"
 	"github.com/cosmos/cosmos-sdk/server/config"
 
@@ -38,6 +40,10 @@ type Tuple struct {
 	Kind string   `json:"kind"` // proof | proof-latest | count | multi
 	IDs  []uint64 `json:"ids,omitempty"`
 	Sc   Scenario `json:"scenario"`
+	// AdvanceAfter > 0: live node. The node's latest block is Sc.Height when the request starts and the next
+	// block (height+1) arrives right after the AdvanceAfter-th RPC call the service makes for this request.
+	// Headers of both blocks are chainScenario(height); only "latest" requests (multi, proof-latest) use it.
+	AdvanceAfter int `json:"advance_after,omitempty"`
 }
 
 // Cfg is stored in replay files.
@@ -99,6 +105,26 @@ func (wk *worker) eval(t Tuple) (er evalResult) {
 	}
 	sh, tr, inScope := signedHeader(t.Sc, prev.AppHash)
 	node := &fakeNode{c: c, sh: sh}
+	live := t.AdvanceAfter > 0
+	var trNext truth
+	if live {
+		if _, ok := c.blocks[H+1]; !ok {
+			panic("live tuple at the last block")
+		}
+		shNext, tn, _ := signedHeader(chainScenario(c, H+1), c.blocks[H].AppHash)
+		trNext = tn
+		node.live, node.latest, node.advanceAfter = true, H, t.AdvanceAfter
+		node.headerAt = func(h int64) *cmttypes.SignedHeader {
+			switch h {
+			case H:
+				return sh
+			case H + 1:
+				return shNext
+			}
+			x, _, _ := signedHeader(chainScenario(c, h), c.blocks[h-1].AppHash)
+			return x
+		}
+	}
 	srv := proof.NewProofServer(client.Context{}.WithClient(node), config.Config{})
 	st := wk.state(H - 1)
 
@@ -138,6 +164,37 @@ func (wk *worker) eval(t Tuple) (er evalResult) {
 		}
 	}()
 	_ = wantHeight
+	if live {
+		er.saw(fmt.Sprintf("live:next-block-after-call-%d", t.AdvanceAfter))
+		claimed := uint64(0)
+		switch {
+		case panicked != "" || err != nil:
+			er.saw("live:failed-as-a-whole")
+		case single != nil:
+			claimed = single.Result.Proof.BlockHeight
+		case multi != nil:
+			claimed = multi.Result.Proof.BlockHeight
+		}
+		switch claimed {
+		case 0:
+		case uint64(H):
+			er.saw("live:response-for-first-latest-block")
+		case uint64(H + 1):
+			// the response claims the block that arrived during the request: everything in it (header parts,
+			// signatures, multistore proof, IAVL paths) must belong to that ONE block
+			er.saw("live:response-for-next-block")
+			H, tr, st = H+1, trNext, wk.state(H)
+			allStored = true
+			for _, id := range t.IDs {
+				if _, ok := st.results[id]; !ok {
+					allStored = false
+				}
+			}
+		default:
+			er.fail = failf("live:response-for-block-never-served", "response claims block %d, node served %d and %d", claimed, H, H+1)
+			return
+		}
+	}
 	kind := t.Kind
 	if kind == "proof-latest" {
 		kind = "proof"
@@ -553,6 +610,57 @@ func batchTuples(c *chain, states func(int64) *versionState) (out []Tuple, heigh
 	return
 }
 
+// liveTuples: requests for the LATEST block while the chain advances.  For every height L (3..last-1) whose
+// block stored at least one result: ids {O1: oldest result in state L-1, O2: newest result in state L-1,
+// N: a result stored by block L itself (in state L, not in L-1)}; MultiProof of every sequence (with
+// repetition) of length 1..3 and Proof(latest) of each id, x the next block arriving after the k-th RPC
+// call of the request, k = 1..maxK.
+func liveTuples(c *chain, states func(int64) *versionState, maxK int) (out []Tuple, heights []int64) {
+	for L := int64(3); L < c.last; L++ {
+		prev, cur := states(L-1), states(L)
+		var o1, o2, nw uint64
+		for id := uint64(1); id <= uint64(c.n); id++ {
+			_, inPrev := prev.results[id]
+			_, inCur := cur.results[id]
+			switch {
+			case inPrev && o1 == 0:
+				o1 = id
+			case inPrev:
+				o2 = id
+			case inCur && nw == 0:
+				nw = id
+			}
+		}
+		if o1 == 0 || o2 == 0 || nw == 0 {
+			continue
+		}
+		heights = append(heights, L)
+		alpha := []uint64{o1, o2, nw}
+		sc := chainScenario(c, L)
+		for k := 1; k <= maxK; k++ {
+			for _, id := range alpha {
+				out = append(out, Tuple{Kind: "proof-latest", IDs: []uint64{id}, Sc: sc, AdvanceAfter: k})
+			}
+			for l := 1; l <= 3; l++ {
+				total := 1
+				for i := 0; i < l; i++ {
+					total *= len(alpha)
+				}
+				for x := 0; x < total; x++ {
+					ids := make([]uint64, l)
+					y := x
+					for i := 0; i < l; i++ {
+						ids[i] = alpha[y%len(alpha)]
+						y /= len(alpha)
+					}
+					out = append(out, Tuple{Kind: "multi", IDs: ids, Sc: sc, AdvanceAfter: k})
+				}
+			}
+		}
+	}
+	return
+}
+
 type tsVariant struct {
 	sec  int64
 	nano int32
@@ -775,6 +883,25 @@ func run(r *engine.Run) {
 	}
 	spaceOff += int64(len(batches))
 
+	// ---- space A3: latest-block requests while the next block arrives ----
+	lives, lheights := liveTuples(c0, workers[0].state, 8)
+	if len(lheights) < 3 {
+		engine.Fatal3("C12: only %d heights qualify for the live-node space", len(lheights))
+	}
+	for i, t := range lives {
+		if i%(len(lives)/4+1) == 5 {
+			tally.Sample(24, t)
+		}
+	}
+	before = tally.Evals
+	complete = engine.ParallelFor(int64(len(lives)), nw, deadline, func(wi int, idx int64) { evalAndRecord(wi, idx, lives[idx]) })
+	fmt.Printf("[C12] space A3 (latest block while the chain advances, %d heights %v): %d tuples, complete=%v, evaluated=%d violations=%d (%.1fs)\n", len(lheights), lheights, len(lives), complete, tally.Evals-before, int(nviol.Load()), time.Since(t0).Seconds())
+	if !complete {
+		r.Exhaustive = false
+		r.CapReasons = append(r.CapReasons, "space A3: internal deadline")
+	}
+	spaceOff += int64(len(lives))
+
 	// ---- space B: vote format ----
 	var vspaces []voteSpace
 	if quick {
@@ -865,6 +992,9 @@ func run(r *engine.Run) {
 		r.Notes = append(r.Notes, fmt.Sprintf("MultiProof batches containing an id without a stored result (pending or nonexistent): %d failed as a whole, %d returned a partial response whose every reported proof verified end to end "+
 			"(the unchanged tree fails the whole batch with 'IAVL existence proof not found'; either behaviour satisfies the check, a successful response with a non-verifying proof does not)", whole, part))
 	}
+	r.Notes = append(r.Notes, fmt.Sprintf("latest-block requests while the next block arrives during the request (space A3): %d failed as a whole, %d answered for the block that was latest at the first Commit call, %d answered for the block that arrived meanwhile; "+
+		"the unchanged tree fetches the commit once and never switches blocks (results stored by the latest block itself fail with 'IAVL existence proof not found'); any answer must verify end to end against the one block it claims",
+		r.Outcomes["live:failed-as-a-whole"], r.Outcomes["live:response-for-first-latest-block"], r.Outcomes["live:response-for-next-block"]))
 	r.Notes = append(r.Notes, fmt.Sprintf("stores mounted by the app (sorted): %s", strings.Join(c0.w.StoreNames(), ",")))
 
 	// confirm: every distinct fingerprint must reproduce twice on fresh chains
@@ -900,6 +1030,8 @@ func init() {
 			r.Bound = "real BandApp committing a fixed scenario of signed txs: N=12 (quick) / 48 (thorough) requests resolving 1-2 per block (14 / 41 blocks). " +
 				"Space A: every header height 3..last x {count proof, Proof(k) for every k<=N, Proof(k, latest) at the last height, MultiProof of every ordered pair and of the full list of stored results}; round, part-set total, flags and slot order of 3 validators rotate with the height. " +
 				"Space A2: at every header height where two results stored by different blocks, a pending request and a never-existing id are all available: MultiProof of every sequence (with repetition) of length 1..3 over {R1,R2,pending,nonexistent}; a batch must fail as a whole or every reported proof must verify end to end. " +
+				"Space A3 (live node): for every height L whose block stored a result, requests for the LATEST block (MultiProof of every sequence of length 1..3 over {oldest and newest result of state L-1, a result stored by block L}, Proof(latest) of each) while the node's latest block advances from L to L+1 right after the k-th RPC call of the request, k=1..8; " +
+				"a call must fail as a whole or every reported proof must verify end to end against the ONE block the response claims. " +
 				"Space B (last block, result N): every assignment of {precommit, nil-precommit, absent} to 1..4 (thorough 1..5) validator slots with >=1 precommit x round {0,1,2}(thorough +2^31-1) x " +
 				"vote timestamps sec {0,1,1.7e9}(thorough +year 9999) x nanos {0,1,999999999} (consecutive variants per slot) x chain-id length 1..20 x slot order {keys ascending, reversed}; " +
 				"thorough also B': 6..7 slots x round {0,1} x 3 timestamps x chain-id length {9,17} x 2 slot orders. " +
@@ -920,7 +1052,7 @@ func init() {
 				"iavl-step:data-on-right", "iavl-step:data-on-left", "result-status:1", "result-status:2",
 				"signatures:1", "signatures:3", "signatures:4", "vote-timestamp:0B", "vote-timestamp:12B",
 				"out-of-scope(vote>=128B):no-match-address-found", "result-not-stored:IAVL-existence-proof-not-found",
-				"batch-shape:all-missing", "batch-shape:first-missing-later-stored", "batch-shape:first-stored-later-missing"}
+				"live:response-for-first-latest-block", "live:failed-as-a-whole", "live:next-block-after-call-1", "batch-shape:all-missing", "batch-shape:first-missing-later-stored", "batch-shape:first-stored-later-missing"}
 			run(r)
 		},
 		Replay: func(raw json.RawMessage, path []string) (engine.StepResult, []string) {
